@@ -18,7 +18,10 @@ RULE = ('all DAG shapes (topologically ordered node lists, every slot unset / '
         'leaf / reference to an earlier node, all nodes reachable, isomorphic '
         'duplicates removed) over the kind menu up to N nodes; a shape is '
         'non-trivial when it contains at least one shared reference or two '
-        'Buildables')
+        'Buildables; plus every shape with a callable that records its '
+        'invocation and then raises from its body (TypeError, a TypeError '
+        'subclass, RuntimeError): no node is invoked twice in a failing '
+        'build either')
 ASSUMPTIONS = [
     'the reference builder memoises by object identity for Buildables, lists, '
     'dicts, non-empty tuples and the Tmp node, which is what the statement '
@@ -42,6 +45,7 @@ MENUS = {
     'mid': ['cfg', 'list2', 'tuple2', 'dict1', 'tmp'],
     'tagged': ['cfg', 'list2', 'dict1', 'tvv'],
     'small': ['cfg', 'list2', 'tuple1'],
+    'failing': ['cfg', 'cfgfail', 'list2'],
 }
 
 
@@ -64,6 +68,7 @@ def units(tier, seed):
       out.append(('shapes', menu, n, nl, k))
   for d in bounds(tier)['chains']:
     out.append(('chain', d))
+  out += [('failing', k) for k in range(4)]
   return out
 
 
@@ -341,6 +346,9 @@ def run_unit(unit, tier, seed):
       check_root(root, res, {'chain': d, 'flavour': flavour}, f'chain')
     res.sample({'chain_depth': d})
     return res
+  if unit[0] == 'failing':
+    run_failing(unit[1], res, 3 if tier == 'quick' else 4)
+    return res
   _, menu, n, nl, k = unit
   ks, byname = _kinds(menu)
   for idx, shape in enumerate(shapes.all_shapes(ks, n, nl)):
@@ -362,6 +370,55 @@ def run_unit(unit, tier, seed):
   return res
 
 
+class _BodyTypeError(TypeError):
+  pass
+
+
+def run_failing(k, res, n, only=None):
+  """Builds that fail: also then no Buildable is invoked more than once (the
+  failing callable records its invocation, then raises from its body); the
+  build stops at the first failure."""
+  ks, byname = _kinds('failing')
+  excs = {'TypeError': lambda: TypeError('raised from the body'),
+          'TypeError-subclass': lambda: _BodyTypeError('from the body'),
+          'RuntimeError': lambda: RuntimeError('from the body')}
+  for idx, shape in enumerate(shapes.all_shapes(ks, n, 1)):
+    if only is not None:
+      if shape != only:
+        continue
+    elif idx % 4 != k:
+      continue
+    if not any(kind == 'cfgfail' for kind, _ in shape):
+      continue
+    for ename, mk_exc in excs.items():
+      objs = shapes.materialize(shape, byname, LEAVES)
+      root = objs[-1]
+      nconfigs = sum(1 for o in objs if isinstance(o, fdl.Config))
+      case = {'menu': 'failing', 'shape': shape, 'exception': ename}
+      res.states += 1
+      res.evals += 1
+      res.nontrivial += 1
+      vfx.reset()
+      vfx.FAIL['exc'] = mk_exc
+      try:
+        fdl.build(root)
+        outcome = 'ok'
+      except Exception as e:  # pylint: disable=broad-except
+        outcome = 'raise'
+      res.transitions += 1
+      log = [key for _, key, _ in vfx.LOG]
+      res.outcomes[f'failing:{ename}:{outcome}'] += 1
+      if outcome == 'ok':
+        res.violation(f'C02/failing-build-succeeds/{ename}',
+                      f'{case}: log {log}', case)
+      elif log.count('failer') != 1 or log[-1] != 'failer' or (
+          len(log) > nconfigs):
+        res.violation(
+            f'C02/invoked-more-than-once-in-a-failing-build/{ename}',
+            f'{case}: invocation log {log} (expected: every node at most '
+            f'once, the failing one exactly once and last)', case)
+
+
 def _chain(d, flavour):
   node = fdl.Config(N.node, x='leaf')
   shared = fdl.Config(N.node_b, x='shared')
@@ -377,6 +434,13 @@ def _chain(d, flavour):
 
 def replay(case):
   res = core.Result()
+  if case.get('menu') == 'failing':
+    shape = tuple((k, tuple(tuple(s) if isinstance(s, list) else s
+                            for s in sl)) for k, sl in case['shape'])
+    run_failing(0, res, len(shape), only=shape)
+    for v in res.violations:
+      print(v['what'])
+    return res
   if 'chain' in case:
     check_root(_chain(case['chain'], case['flavour']), res, case, 'chain')
     return res
